@@ -49,7 +49,8 @@ var groups = []group{
 	{Name: "bucket", Alphabet: []string{"code200", "code404", "code200.get", "code200.reset", "code.resetall"},
 		Quick: []shape{{1, 2}, {2, 2}, {3, 1}}, Thorough: []shape{{1, 3}, {2, 2}, {3, 1}, {2, 3}, {3, 2}}},
 	{Name: "mean", Alphabet: []string{"http.add10", "http.add30", "http.get", "http.reset"},
-		Quick: []shape{{1, 2}, {2, 2}, {3, 1}}, Thorough: []shape{{1, 3}, {2, 2}, {3, 1}, {2, 3}, {3, 2}}},
+		Quick: []shape{{1, 2}, {2, 2}, {3, 1}}, Thorough: []shape{{1, 3}, {2, 2}, {3, 1}, {2, 3}}},
+	{Name: "mean3", Alphabet: []string{"http.add10", "http.add30", "http.reset"}, Thorough: []shape{{3, 2}}},
 	{Name: "means", Alphabet: []string{"body.add10", "body.reset", "wait.add30", "wait.reset"},
 		Quick: []shape{{1, 2}, {2, 2}}, Thorough: []shape{{1, 3}, {2, 2}, {3, 1}, {2, 3}}},
 	{Name: "gauge", Alphabet: []string{"pre+", "pre-", "pre.get", "pre.reset"},
@@ -372,7 +373,7 @@ func main() {
 	}
 	budget := 40 * time.Second
 	if a.Tier == "thorough" {
-		budget = 9 * time.Minute
+		budget = 12 * time.Minute
 	}
 	if a.Extra["deadline"] != "" { // shard worker
 		var dl int64
